@@ -55,6 +55,55 @@ def write_mol2(atoms, bonds):
     return "\n".join(out) + "\n"
 
 
+SUBSTITUENTS = {
+    # name: (atoms as (name stem, sybyl type), bonds among them and to the attachment point 0 as (i, j, order))
+    "F": ([("F", "F")], [(0, 1, "1")]), "Cl": ([("CL", "Cl")], [(0, 1, "1")]), "Br": ([("BR", "Br")], [(0, 1, "1")]),
+    "OH": ([("O", "O.3"), ("H", "H")], [(0, 1, "1"), (1, 2, "1")]),
+    "NH2": ([("N", "N.3"), ("H", "H"), ("H", "H")], [(0, 1, "1"), (1, 2, "1"), (1, 3, "1")]),
+    "CH3": ([("C", "C.3"), ("H", "H"), ("H", "H"), ("H", "H")], [(0, 1, "1"), (1, 2, "1"), (1, 3, "1"), (1, 4, "1")]),
+    "COO-": ([("C", "C.2"), ("O", "O.co2"), ("O", "O.co2")], [(0, 1, "1"), (1, 2, "ar"), (1, 3, "ar")]),
+    "NH3+": ([("N", "N.4"), ("H", "H"), ("H", "H"), ("H", "H")], [(0, 1, "1"), (1, 2, "1"), (1, 3, "1"), (1, 4, "1")]),
+}
+
+
+def substituted(atoms, bonds, rng, nsub=2):
+    """replace hydrogens on carbon by substituents (halogen, hydroxyl, amine, methyl, carboxylate, ammonium): other molecules
+    of supported atom and bond types, built from the stored ones"""
+    atoms = [dict(a) for a in atoms]
+    bonds = [list(b) for b in bonds]
+    byid = {a["id"]: a for a in atoms}
+    hs = []
+    for i, j, o in bonds:
+        for h, c in ((i, j), (j, i)):
+            if byid[h]["type"] == "H" and byid[c]["type"].startswith("C."):
+                hs.append((h, c))
+    rng.shuffle(hs)
+    used, label = set(), []
+    for h, c in hs[:nsub]:
+        if h in used:
+            continue
+        used.add(h)
+        kind = rng.choice(sorted(SUBSTITUENTS))
+        label.append(kind)
+        ats, bds = SUBSTITUENTS[kind]
+        base = np.array(byid[h]["xyz"])
+        ids = {0: c}
+        for k, (stem, typ) in enumerate(ats, start=1):
+            if k == 1:
+                byid[h].update(name=f"{stem}{h}", type=typ)          # the hydrogen becomes the first substituent atom
+                ids[1] = h
+            else:
+                nid = max(a["id"] for a in atoms) + 1
+                atoms.append({"id": nid, "name": f"{stem}{nid}", "xyz": list(base + np.array([0.9 * k, 0.35 * k, -0.2 * k])), "type": typ, "rest": []})
+                byid[nid] = atoms[-1]
+                ids[k] = nid
+        for i, j, o in bds:
+            if (i, j) == (0, 1):
+                continue                                              # that bond exists already (order 1)
+            bonds.append([ids[i], ids[j], o])
+    return atoms, bonds, "+".join(label)
+
+
 def renamed(atoms, bonds):
     a2 = [dict(a, name=f"X{k}") for k, a in enumerate(atoms, start=1)]
     return a2, bonds
@@ -248,15 +297,24 @@ def run(ctx):
     if ctx.quick:
         files = sorted(set([f for f in files if os.path.getsize(f) < 9000] + [os.path.join(DATA, "1HPX-ligand.mol2"), os.path.join(DATA, "adp.mol2")]))
     jobs, meta = [], []
+    sources = [(os.path.basename(f), open(f).read(), None) for f in files]
     for f in files:
-        text = open(f).read()
-        atoms, bonds = parse_mol2(text)
+        a0, b0 = parse_mol2(open(f).read())
+        for k in range(1 if ctx.quick else 6):
+            sa, sb, lab = substituted(a0, b0, rng, nsub=rng.choice([1, 2, 3]))
+            if lab:
+                sources.append((f"{os.path.basename(f)}[{lab}]#{k}", write_mol2(sa, sb), (sa, sb)))
+    for fname_, text, pre in sources:
+        f = fname_
+        atoms, bonds = pre if pre else parse_mol2(text)
         base = write_mol2(atoms, bonds)
         ra, rb = renamed(atoms, bonds)
         pa, pb, order = permuted(atoms, bonds, rng)
         ia, ib = with_counter_ion(atoms, bonds)
         for variant, (a_, b_) in (("file", (None, None)), ("rewritten", (atoms, bonds)), ("renamed", (ra, rb)),
                                   ("renamed-descending", renamed_descending(atoms, bonds)), ("renamed-shuffled", renamed_shuffled(atoms, bonds, rng)),
+                                  *([] if ctx.quick else [(f"renamed-shuffled{k}", renamed_shuffled(atoms, bonds, rng)) for k in range(2, 8)]),
+                                  *([] if ctx.quick else [(f"permuted{k}", permuted(atoms, bonds, rng)[:2]) for k in range(2, 6)]),
                                   ("permuted", (pa, pb)), ("counter-ion", (ia, ib))):
             t = text if variant == "file" else write_mol2(a_, b_)
             jobs.append((os.path.basename(f), t, variant))
@@ -267,7 +325,7 @@ def run(ctx):
     for (fname, text, variant), m, o in zip(jobs, meta, obs):
         ctx.evaluations += 1
         if "exc" in o:
-            if variant in ("file", "rewritten", "renamed", "renamed-descending", "renamed-shuffled", "permuted"):
+            if variant != "counter-ion":
                 ctx.violation({"clause": "AssignParametersSucceeds", "variant": variant}, f"{fname} {variant}: {o['exc']}", {"mol2": text})
             else:
                 ctx.drift.append({"molecule": fname, "variant": variant, "exc": o["exc"]})
@@ -290,7 +348,7 @@ def run(ctx):
         o0, m0 = v["rewritten"]
         cls0 = symmetry_class(m0["atoms"], m0["bonds"])
         key0 = sorted((cls0[a["id"]], int(round(q * 1e6))) for a, q in zip(m0["atoms"], o0["final"]))
-        for variant in ("renamed", "renamed-descending", "renamed-shuffled", "permuted"):
+        for variant in [x for x in v if x.startswith(("renamed", "permuted"))]:
             if variant not in v:
                 continue
             o1, m1 = v[variant]
